@@ -316,3 +316,33 @@ pub open spec fn cand_at(a: MzAut, p: Partition, b: u32, blk: u32, c0: u32, x: u
 pub open spec fn is_cand(a: MzAut, p: Partition, b: u32, blk: u32, c0: u32) -> bool {
     exists|x: u32| #[trigger] cand_at(a, p, b, blk, c0, x)
 }
+
+pub open spec fn blk_size(p: Partition, b: int) -> int { p.base.block@[b].end - p.base.block@[b].start }
+
+// b is a block with at least two states, one of which has its c0-successor in block blk
+pub open spec fn refinable(a: MzAut, p: Partition, b: u32, blk: u32, c0: u32) -> bool {
+    1 <= b < p.base.block@.len() && blk_size(p, b as int) > 1 && is_cand(a, p, b, blk, c0)
+}
+
+// block blk has the same members in p1 as in p0
+pub open spec fn blk_intact(a: MzAut, p1: Partition, p0: Partition, blk: u32) -> bool {
+    forall|v: u32| v < a.n ==> (#[trigger] pt_bid(p1, v) == blk) == (pt_bid(p0, v) == blk)
+}
+
+// state of the loop of refine_with_splitter after idx candidates were handled
+pub open spec fn rws_inv(a: MzAut, p: Partition, p0: Partition, blk: u32, c0: u32, elems: Seq<u32>, sz: int, idx: int) -> bool {
+    &&& pt_finer(p, p0)
+    &&& 0 <= idx <= sz <= elems.len()
+    &&& blk_intact(a, p, p0, blk)
+    &&& forall|k: int| idx <= k < sz ==> blk_intact(a, p, p0, #[trigger] elems[k])
+    &&& forall|x: u32, y: u32, k: int| #![trigger same_blk(p, x, y), elems[k]] x < a.n && y < a.n && same_blk(p, x, y) && 0 <= k < idx && pt_bid(p0, x) == elems[k]
+            ==> uni(a, p0, blk, c0, x, y)
+}
+
+// the candidate list: distinct refinable blocks other than blk
+pub open spec fn cands_ok(a: MzAut, p0: Partition, blk: u32, c0: u32, elems: Seq<u32>, sz: int) -> bool {
+    &&& 0 <= sz <= elems.len()
+    &&& forall|k: int| 0 <= k < sz ==> refinable(a, p0, #[trigger] elems[k], blk, c0) && elems[k] != blk
+    &&& forall|k1: int, k2: int| 0 <= k1 < sz && 0 <= k2 < sz && k1 != k2 ==> elems[k1] != elems[k2]
+    &&& forall|b: u32| refinable(a, p0, b, blk, c0) && b != blk ==> exists|k: int| 0 <= k < sz && #[trigger] elems[k] == b
+}
